@@ -6,12 +6,13 @@ import Driver.IRJson
 import Driver.Intervals
 import Driver.Symbols
 import Driver.Asm
+import Driver.Store
 
 /-! One JSON request per input line, one JSON answer per output line. -/
 open Lean Driver
 
 def handlers : List (String → Json → Option (Except String Json)) :=
-  [Driver.Dwarf.handle, Driver.Cfi.handle, Driver.Adt.handle, Driver.Abi.handle, Driver.Abi.handleCall, Driver.IRJson.handle, Driver.IRJson.handleListing, Driver.Intervals.handle, Driver.Symbols.handle, Driver.Asm.handle]
+  [Driver.Dwarf.handle, Driver.Cfi.handle, Driver.Adt.handle, Driver.Abi.handle, Driver.Abi.handleCall, Driver.IRJson.handle, Driver.IRJson.handleListing, Driver.Intervals.handle, Driver.Symbols.handle, Driver.Asm.handle, Driver.Store.handle]
 
 def dispatch (line : String) : Json :=
   match Json.parse line with
